@@ -26,7 +26,9 @@ from harness import gen
 from harness.lib import WORK, Family, Verdict, call, drive
 
 RULE = ("cases are drawn from random.Random(VERIF_SEED): dense tensors, sparse tensors (empty / one / some / all "
-        "cells stored; sorted, reversed, shuffled stored order), Kruskal tensors (rank 1..4, non-square factors) and "
+        "cells stored; sorted, reversed, shuffled stored order; a quarter with extents and subscripts between 2**53 and "
+        "2**62), dense tensors whose .data buffer is F-contiguous, C-ordered (grown by assignment beyond the extent "
+        "with scalar / subscript / slice keys, or .data set) or a strided view, Kruskal tensors (rank 1..4, non-square factors) and "
         "matrices of order 1..4 (5 in thorough) with extents 1..4 incl. singleton modes; values are doubles sampled "
         "over the whole exponent range (random bit patterns with uniformly drawn exponent field, subnormals, "
         "neighbours of powers of two and of ten from 1e-323 to 1e308, DBL_MIN/DBL_MAX, 17-significant-digit worst "
@@ -118,12 +120,68 @@ def values(rng, n, allow_zero=True):
 # ----------------------------------------------------------------------------
 # objects: JSON form (as sent to the model), real pyttb objects, canonical form
 # ----------------------------------------------------------------------------
+DENSE_ROUTES = ("grow_scalar", "grow_subs", "grow_slice", "attr_C", "attr_view")
+
+
+def build_dense(o):
+    """A dense tensor with the given shape and (F-order) values, reached through the route named in the
+    case.  The logical content is always the same; what differs is the memory layout of `.data`:
+      ctor        ttb.tensor(array)                       -> F-contiguous buffer
+      grow_*      a smaller tensor grown by assignment beyond its extent (scalar key / subscript-array
+                  key / slice key): the setters allocate a C-ordered buffer; the remaining values are
+                  then written in place through subscript assignment
+      attr_C      the public attribute `.data` set to a C-ordered array
+      attr_view   `.data` set to a strided view (neither C- nor F-contiguous)
+    export_data must write the same file for all of them."""
+    s = tuple(o["shape"])
+    vals = np.array([unbits(b) for b in o["data"]], dtype=float)
+    full = vals.reshape(s, order="F")
+    route = o.get("route", "ctor")
+    if route.startswith("grow"):
+        s0 = [min(a, b) for a, b in zip(o.get("from", s), s)]
+        if tuple(s0) == s:  # (after shrinking) make the start strictly smaller somewhere
+            big = [j for j, k in enumerate(s0) if k > 1]
+            if big:
+                s0[big[-1]] -= 1
+            else:
+                route = "ctor"
+        if len(s) == 1 and route != "ctor":
+            route = "grow_subs"  # a 1-way tensor can only be grown with a subscript-array key
+    if route == "ctor":
+        return ttb.tensor(full, copy=True)
+    if route.startswith("grow"):
+        T = ttb.tensor(np.asfortranarray(full[tuple(slice(0, k) for k in s0)]), copy=True)
+        corner = tuple(k - 1 for k in s)
+        if route == "grow_scalar":
+            T[corner] = full[corner]
+        elif route == "grow_subs":
+            T[np.array([corner])] = full[corner]
+        else:
+            T[tuple(slice(0, k) for k in s)] = full
+        T[np.array(gen.all_subs(list(s)))] = vals  # inside the extents now: written in place
+        return T
+    T = ttb.tensor(full, copy=True)
+    if route == "attr_C":
+        T.data = np.ascontiguousarray(full)
+    elif route == "attr_view":
+        big = np.zeros((2 * s[0],) + s[1:], order="F")
+        big[::2] = full
+        T.data = big[::2]
+    else:
+        raise ValueError(route)
+    return T
+
+
+def contiguity(x):
+    f = x.data.flags
+    return "data=" + (("F" if f["F_CONTIGUOUS"] else "") + ("C" if f["C_CONTIGUOUS"] else "") or "neither")
+
+
 def build(o):
     """JSON object -> real object handed to export_data."""
     t = o["t"]
     if t == "dense":
-        arr = np.array([unbits(b) for b in o["data"]], dtype=float).reshape(tuple(o["shape"]), order="F")
-        return ttb.tensor(arr, copy=True)
+        return build_dense(o)
     if t == "sparse":
         return gen.mk_sptensor(ttb, o["shape"], o["subs"], [unbits(b) for b in o["vals"]])
     if t == "ktensor":
@@ -165,7 +223,8 @@ def canon(x):
 
 
 def strip_layout(o):
-    return {k: v for k, v in o.items() if k != "layout"}
+    """drop what only says how the real object is built (memory layout, construction route)"""
+    return {k: v for k, v in o.items() if k not in ("layout", "route", "from")}
 
 
 def nvalues(o):
@@ -311,13 +370,14 @@ class RoundTrip(Family):
     def evaluate(self, cases):
         out = []
         with Workdir() as wd:
-            real, tidy, imps, built = [], [], [], []
+            real, tidy, imps, built, extra = [], [], [], [], []
             reqs = []
             for c in cases:
                 o = c["obj"]
                 p = wd.path()
                 x = build(o)
                 built.append(canon(x))
+                extra.append([contiguity(x), "route=" + o.get("route", "ctor")] if isinstance(x, ttb.tensor) else [])
                 export_data(x, p)
                 lines, td = read_lines(p)
                 real.append(lines)
@@ -332,7 +392,7 @@ class RoundTrip(Family):
                 imp = imps[i]
                 nv = nvalues(o)
                 tags = [o["t"], f"N{len(o.get('shape', o.get('factors', [])))}", f"values={min(nv, 8) if nv < 8 else '8+'}"]
-                tags += self.tags(c["obj"])
+                tags += self.tags(c["obj"]) + extra[i]
                 if built[i] != o:
                     raise RuntimeError(f"harness: constructed object differs from the case: {built[i]} vs {o}")
                 if not enc["wf"]:
@@ -379,7 +439,20 @@ class Dense(RoundTrip):
 
     def obj(self, rng, tier):
         s = _shape(rng, tier)
-        return {"t": "dense", "shape": s, "data": values(rng, gen.numel(s))}
+        if rng.random() < 0.5:  # at least two non-singleton modes, so that the memory orders differ
+            s = _shape(rng, tier, 2)
+            for j in rng.sample(range(len(s)), 2):
+                s[j] = max(s[j], rng.randint(2, 4))
+        o = {"t": "dense", "shape": s, "data": values(rng, gen.numel(s))}
+        if rng.random() < 0.5 and max(s) > 1:
+            o["route"] = rng.choice(DENSE_ROUTES)
+            if o["route"].startswith("grow"):
+                s0 = [rng.randint(1, k) for k in s]
+                if s0 == s:
+                    j = rng.choice([j for j, k in enumerate(s) if k > 1])
+                    s0[j] = rng.randint(1, s[j] - 1)
+                o["from"] = s0
+        return o
 
 
 class Sparse(RoundTrip):
@@ -387,6 +460,8 @@ class Sparse(RoundTrip):
     theorems = ("C16_roundtrip_sparse", "C16_one_based")
 
     def obj(self, rng, tier):
+        if rng.random() < 0.25:
+            return self.huge(rng)
         s = _shape(rng, tier)
         order = rng.choice(["sorted", "reversed", "shuffled", "shuffled"])
         klass = rng.choice(["empty", "one", "one", "all"] + ["some"] * 6)
@@ -394,7 +469,46 @@ class Sparse(RoundTrip):
         o = {"t": "sparse", "shape": s, "subs": subs, "vals": values(rng, len(subs), allow_zero=False)}
         return o
 
+    @staticmethod
+    def huge(rng):
+        """Extents and subscripts beyond 2**53 (not exactly representable as doubles), below 2**62 so that
+        subscript + index base stays inside int64.  Only the coordinate lists exist: nothing here (and
+        nothing in export/import) allocates memory in proportion to the extents."""
+        def extent():
+            k = rng.randrange(6)
+            if k == 0:
+                return 2 ** 53 + rng.randint(1, 9)
+            if k == 1:
+                return 2 ** rng.randint(54, 62) + rng.choice([0, 1, 2, 3])
+            if k == 2:
+                return rng.randint(2 ** 53, 2 ** 62)
+            if k == 3:
+                return 2 ** 62
+            return rng.randint(1, 4)
+
+        def sub(ext):
+            cand = [0, ext - 1, ext - 2, ext // 2, 2 ** 53 - 1, 2 ** 53, 2 ** 53 + 1, 2 ** 53 + 2, 2 ** 53 + 3,
+                    2 ** 54 + 1, 2 ** 55 + 1, 2 ** 55 - 1, 2 ** 60 + 1, 2 ** 62 - 1, 2 ** 62 - 2,
+                    2 ** rng.randint(53, 61) + rng.randint(1, 99), rng.randrange(ext) | 1, rng.randrange(ext)]
+            cand = [c for c in cand if 0 <= c < ext]
+            big = [c for c in cand if c >= 2 ** 53]
+            return rng.choice(big) if big and rng.random() < 0.7 else rng.choice(cand)
+
+        n = rng.randint(1, 4)
+        s = [extent() for _ in range(n)]
+        if max(s) < 2 ** 53:
+            s[rng.randrange(n)] = 2 ** 53 + rng.randint(2, 9)
+        rows = []
+        for _ in range(rng.choice([1, 1, 2, 3, 5, 8])):
+            r = [sub(e) for e in s]
+            if r not in rows:
+                rows.append(r)
+        return {"t": "sparse", "shape": s, "subs": rows, "vals": values(rng, len(rows), allow_zero=False)}
+
     def tags(self, o):
+        if max(o["shape"]) >= 2 ** 53:
+            big = sum(1 for r in o["subs"] for i in r if i >= 2 ** 53)
+            return ["extent>=2^53", "subs>=2^53:" + ("0" if big == 0 else "1+")]
         n, cells = len(o["subs"]), gen.numel(o["shape"])
         key = [list(reversed(r)) for r in o["subs"]]
         order = "sorted" if key == sorted(key) else ("reversed" if key == sorted(key, reverse=True) else "unsorted")
@@ -809,6 +923,9 @@ def shrink_obj(o):
         if o["vals"] != simple(len(o["vals"])):
             yield {**o, "vals": simple(len(o["vals"]))}
         s = o["shape"]
+        tight = [max([r[j] for r in o["subs"]] + [0]) + 1 for j in range(len(s))]
+        if tight != s:
+            yield {**o, "shape": tight}
         for j in range(len(s)):
             if len(s) > 1 and all(r[j] == 0 for r in o["subs"]):
                 yield {**o, "shape": s[:j] + s[j + 1:], "subs": [r[:j] + r[j + 1:] for r in o["subs"]]}
